@@ -525,8 +525,8 @@ MUTANTS = [
     V('c06-constants-open-scope', _A, "                                    if not lobj.is_constant \\\n                                            and LabelScopeType", "                                    if True \\\n                                            and LabelScopeType", 'C06.4'),
     V('c06-local-parent-local', _A, "current_scope = LabelScope(LabelScopeType.LOCAL, self.label_scope, lobj.get_label())", "current_scope = LabelScope(LabelScopeType.LOCAL, current_scope, lobj.get_label())", 'C06.4'),
     V('c06-unresolved-zero', 'expression/__init__.py', "            if val is None:\n                sys.exit(f'ERROR: {line_id} - Label {self.value} resolves to NONE = {self}')\n", "            if val is None:\n                val = 0\n", 'C06.6'),
-    V('c06-register-label-ok', _LL, "                if label_val in registers:\n                    sys.exit(f'ERROR: {line_id} - used the register label \"{label_val}\" as a non-register label')\n", "", 'C06.6'),
-    V('c06-global-register-check', _L, "        if label in self._register_labels:\n            sys.exit(f'ERROR: {line_id} - register label \"{label}\" used in numeric expression')\n", "", 'C06.6'),
+    V('c06-register-label-ok', _LL, "                if is_register_name(label_val, registers):\n                    sys.exit(f'ERROR: {line_id} - used the register label \"{label_val}\" as a non-register label')\n", "", 'C06.6'),
+    V('c06-global-register-check', _L, "        if is_register_name(label, self._register_labels):\n            sys.exit(f'ERROR: {line_id} - register label \"{label}\" used in numeric expression')\n", "", 'C06.6'),
     V('c06-keyword-ok', _L, "        if base_label in ASSEMBLER_KEYWORD_SET:\n", "        if False:\n", 'C06.3'),
     V('c06-fill-global-scope', 'assembler/line_object/directive_line/fill_data.py', "            self._value = self._value_expr.get_value(self.label_scope, self.line_id)", "            self._value = self._value_expr.get_value(self.label_scope.parent, self.line_id)", 'C06.5'),
     V('c06-lookup-siblings', _L, "        elif self.parent is not None:\n            return self.parent.get_label_value(label, line_id)", "        elif self.parent is not None:\n            return self.parent.get_label_value(label.lstrip('.'), line_id)", 'C06.1'),
